@@ -226,6 +226,9 @@ where
     {
         loop {
             match self.peek()? {
+                None if is_truncated_symbol(scratch) => {
+                    return error(self, ErrorCode::EofWhileParsingValue);
+                }
                 Some(b' ') | Some(b'\n') | Some(b'\t') | Some(b'\r') | Some(0x0C) | Some(b')')
                 | Some(b']') | Some(b'(') | Some(b'[') | Some(b';') | None => {
                     if scratch == b"." {
@@ -400,16 +403,23 @@ impl<'a> SliceRead<'a> {
             match self.peek_byte() {
                 None | Some(b' ') | Some(b'\n') | Some(b'\t') | Some(b'\r') | Some(0x0C)
                 | Some(b')') | Some(b']') | Some(b'(') | Some(b'[') | Some(b';') => {
+                    let at_eof = self.index == self.slice.len();
                     if scratch.is_empty() {
                         // Fast path: return a slice of the raw S-expression without any
                         // copying.
                         let borrowed = &self.slice[start..self.index];
+                        if at_eof && is_truncated_symbol(borrowed) {
+                            return error(self, ErrorCode::EofWhileParsingValue);
+                        }
                         if borrowed == b"." {
                             return error(self, ErrorCode::InvalidSymbol);
                         }
                         return result(self, borrowed).map(Reference::Borrowed);
                     } else {
                         scratch.extend_from_slice(&self.slice[start..self.index]);
+                        if at_eof && is_truncated_symbol(scratch) {
+                            return error(self, ErrorCode::EofWhileParsingValue);
+                        }
                         if scratch == b"." {
                             return error(self, ErrorCode::InvalidSymbol);
                         }
@@ -710,6 +720,12 @@ fn as_char<'de, 's, R: Read<'de> + ?Sized>(read: &R, value: u32) -> Result<char>
         None => error(read, ErrorCode::InvalidUnicodeCodePoint),
         Some(c) => Ok(c),
     }
+}
+
+/// At the end of input, a lone `.` or a multi-byte character that has been
+/// cut short may still become a symbol once more input arrives.
+fn is_truncated_symbol(bytes: &[u8]) -> bool {
+    bytes == b"." || matches!(str::from_utf8(bytes), Err(e) if e.error_len().is_none())
 }
 
 fn needs_escape(c: u8) -> bool {
